@@ -362,15 +362,14 @@ def run_domain(prop, tier, seed, dom, exe, n, known, shrink_ok, base_answers):
         # interval-shaped chains of the modelled domain, with its bound
         ch = domcommon.widen_chains(seed + 5, max(10, n // 2))
         # relational chains, long enough to exceed the bound if the widening does not stabilise
-        steps = 110 if tier == "quick" else 220
-        rc = X.rel_chains(seed + 6, max(5, n // 6), steps, maxvars=(2 if k > 1 else 3))
+        rc = X.rel_chains(seed + 6, max(5, n // 6), None, maxvars=(2 if k > 1 else 3), k=k)
         if dom.get("asc_widen"):
             ch = [X.ascending_widen(l) for l in ch]
             rc = [X.ascending_widen(l) for l in rc]
         ans = run_cases(exe, name, ch, os.path.join(outd, stream + "-chains.cases"))
         examine(res, prop, dom, exe, stream, "chains", ch, ans, lambda l, a: chain_oracle_k(l, a, k), known, shrink_ok)
         ans = run_cases(exe, name, rc, os.path.join(outd, stream + "-relchains.cases"))
-        st["chain_steps"] = steps
+        st["chain_steps"] = "3 x bound + 10"
         examine(res, prop, dom, exe, stream, "relchains", rc, ans, lambda l, a: X.rel_chain_oracle(l, a, None, k), known, shrink_ok)
     return res
 
